@@ -337,7 +337,7 @@ ConsumeStep ==
                 gc2  == GcNext(hist.gc, hist.pre, line.act, line.res)
                 xw0  == IF ExtAct(line.act) /\ WithWorld(hist.fam) THEN XwApply(hist.xw, line.act) ELSE hist.xw
                 \* evm family: custody and executed batches are what the real contract reports
-                xw1  == IF hist.fam = "evm" /\ post.evm # <<>>
+                xw1  == IF post.evm # <<>>
                         THEN [c \in DOMAIN xw0 |->
                                 IF c \in DOMAIN post.evm
                                 THEN [xw0[c] EXCEPT !.cust = [t \in DOMAIN @ |-> Get(post.evm[c].cust, t, 0)],
@@ -346,7 +346,7 @@ ConsumeStep ==
                                 ELSE xw0[c]]
                         ELSE xw0
                 \* minter family: custody and executed batches are what the Minter chain model reports
-                xw1m == IF hist.fam = "minter" /\ post.mnt # <<>>
+                xw1m == IF post.mnt # <<>>
                         THEN [xw1 EXCEPT ![MC].cust = [t \in DOMAIN @ |-> Get(post.mnt.cust, t, 0)],
                                          ![MC].done = {<<e.tok, e.bn>> : e \in {e \in RangeOf(post.mnt.ref) : e.t = "Exec"}}]
                         ELSE xw1
